@@ -517,6 +517,8 @@ def _run_property(args, prop, tier, work, outdir, t0):
             continue
         if args.unit and name != args.unit:
             continue
+        if name in (args.skip_unit or '').split(',') or (not args.unit and os.path.exists(os.path.join(VERIF, 'units', name, 'DISABLED'))):
+            continue
         cpath = os.path.join(VERIF, 'units', name, 'contracts.c')
         if not os.path.exists(cpath):
             continue
@@ -718,7 +720,7 @@ def scan_assumptions(units, results):
 
 
 def write_evidence(args, prop, tier, units, results, lemmas, violations, known, inconclusive, wall):
-    if args.no_evidence or args.only or args.unit:
+    if args.no_evidence or args.only or args.unit or args.skip_unit:
         return
     enforced = set((r.check.unit.name, r.check.fn) for r in results if r.status == 'ok')
     used = set()
@@ -790,6 +792,7 @@ def main():
     ap.add_argument('--tier', default=os.environ.get('VERIF_TIER') or 'quick')
     ap.add_argument('--only')
     ap.add_argument('--unit')
+    ap.add_argument('--skip-unit')
     ap.add_argument('--jobs', type=int, default=int(os.environ.get('VERIF_JOBS', '16')))
     ap.add_argument('--keep', action='store_true')
     ap.add_argument('--replay')
